@@ -91,7 +91,24 @@ def pool_suite(name, quick, thorough):
 SYS_HEADER = "From GK Require Import SysCheck.\nOpen Scope string_scope.\nOpen Scope list_scope.\nOpen Scope Z_scope."
 
 
+# how many of the observed traces meet the hypotheses of the rest-state theorems (Props/C05.v, Props/C06.v): evidence
+# that those theorems speak about the traces the check sees
+REST_COUNTERS = ("From GK.Proofs Require RestProofs.\n"
+                 "Definition traces_meeting_C05_rest_hypotheses := Eval vm_compute in List.length (filter (fun tr => RestProofs.timer_started_first tr && RestProofs.no_user_hook_fault tr && RestProofs.trace_disciplined tr) cases).\n"
+                 "Print traces_meeting_C05_rest_hypotheses.\n"
+                 "Definition traces_meeting_C06_rest_hypotheses := Eval vm_compute in List.length (filter RestProofs.no_markdone_fault cases).\n"
+                 "Print traces_meeting_C06_rest_hypotheses.\n")
+
+
 def sys_suite(name, pred, quick, thorough, length=60, extra=None):
+    su = _sys_suite(name, pred, quick, thorough, length, extra)
+    if pred in ("c05_ok", "c06_ok", "c20_ok"):
+        su["eval"] += "\n" + REST_COUNTERS
+        su["counters"] = ["traces_meeting_C05_rest_hypotheses", "traces_meeting_C06_rest_hypotheses"]
+    return su
+
+
+def _sys_suite(name, pred, quick, thorough, length=60, extra=None):
     return {
         "name": name, "cmd": ["sys", "--len", str(length)] + (extra or []), "header": SYS_HEADER, "hist_type": "list slabel",
         "eval": "Definition M := Eval vm_compute in sys_mismatches scfg_current hcfg_current cases 0.\nPrint M.\n"
